@@ -67,6 +67,10 @@ def _cut_blocks(prog, f, field, recnames, depth=0):
                         x = ex.strip(x["b"])
                     if x is not None and x.get("k") == "mem" and (x.get("rec"), x["f"]) == field:
                         hit = True
+                # an array member handed to a callee (memset(coder->history, ...)) is filled by it
+                if a0 is not None and a0.get("k") == "mem" and (a0.get("rec"), a0["f"]) == field and \
+                        _is_array_member(prog, field):
+                    hit = True
             if hit:
                 cutb.add(b.id)
                 continue
@@ -79,6 +83,13 @@ def _cut_blocks(prog, f, field, recnames, depth=0):
                     if passes and _writes_on_all_ok_paths(prog, g, field, recnames, depth):
                         cutb.add(b.id)
     return cutb
+
+
+def _is_array_member(prog, field):
+    r = prog.records.get(field[0])
+    if not r:
+        return False
+    return any(fd_["n"] == field[1] and "[" in (fd_.get("ty") or "") for fd_ in r["fields"])
 
 
 def _is_record_ptr(f, arg, recname, prog):
@@ -422,4 +433,256 @@ def check_accumulators(ck, prog, rule, files=None):
                       "contributed is forgotten, so the result depends on how the caller slices the input" % (
                           f.name, names.get(flagged, flagged), F, ex.show(node)),
                       key="%s:%s:%s" % (rule.split("-", 1)[1], f.name, F))
+    return n
+
+
+# ---------------------------------------------------------------------------------------------------------------
+# INIT-READFIRST: what the coding function reads before it has stored to it must come from the init function.
+READFIRST_EXCEPT = {
+    # (init function, member): reason
+    ("stream_encoder_init", "block_encoder_is_initialized"):
+        "stored by stream_encoder_update(), which the init function tail-calls with coder->sequence == SEQ_STREAM_HEADER "
+        "(its first branch; the path through the other branches is infeasible)",
+    ("stream_encoder_mt_init", "threads_max"):
+        "stored under `coder->threads_max != options->threads`: on the other path it already has the new value",
+    ("stream_encoder_mt_init", "threads_initialized"):
+        "worker cache kept across sessions on purpose; consistent with coder->threads (see C08-INITCONS)",
+    ("lzma_simple_coder_init", "filter"):
+        "set when the record is allocated; lzma_next_coder_init() re-uses a record only for the same init function, "
+        "which always passes the same filter function",
+    ("lzma_simple_coder_init", "allocated"):
+        "set when the record is allocated, from the per-architecture constant unfiltered_max",
+    ("lzma_simple_coder_init", "buffer"):
+        "only buffer[pos, size) is read and the init function sets pos = filtered = size = 0",
+}
+
+
+def _access_events(f, e, field, prog, depth=0):
+    """Ordered list of 'R' / 'W' events of one CFG element for a record member.  Conservative towards silence: an
+    element store to an array member is no event; a store to a sub-member of a record-typed member, and the member's
+    address appearing anywhere (handed to a callee, kept in a pointer), are 'W'."""
+    ev = []
+    rec, fld = field
+    is_arr = _is_array_member(prog, field)
+
+    def is_f(x):
+        return x is not None and x.get("k") == "mem" and (x.get("rec"), x.get("f")) == field
+
+    quiet = set()       # occurrences that are not reads
+    for (l, r, op, node) in ex.writes(e):
+        ls = ex.strip(l)
+        if is_f(ls):
+            quiet.add(id(ls))
+            if op != "=" or (r is not None and any(is_f(x) for x in ex.walk(r))):
+                ev.append(("R", node))
+            ev.append(("W", node))
+            continue
+        # coder->member.sub = v  /  coder->member[i] = v  /  coder->member[i].sub = v
+        x, through_idx = ls, False
+        while x is not None and x.get("k") in ("mem", "idx") and not is_f(x):
+            if x.get("k") == "idx":
+                through_idx = True
+            x = ex.strip(x.get("b"))
+        if is_f(x):
+            quiet.add(id(x))
+            if op != "=" or (r is not None and any(is_f(y) for y in ex.walk(r))):
+                ev.append(("R", node))
+            elif not through_idx and not is_arr:
+                ev.append(("W", node))
+    for x in ex.walk(e):
+        if x.get("k") == "un" and x.get("op") == "&":
+            for y in ex.walk(x):
+                if is_f(y):
+                    quiet.add(id(y))
+                    if not ev:
+                        ev.append(("W", x))
+    for c in ex.calls(e, into_refs=False):
+        for a in c["args"]:
+            # an array member decays to a pointer (possibly offset): the callee may fill it
+            if is_arr:
+                for y in ex.walk(a):
+                    if is_f(y) and not _under_index(a, y):
+                        quiet.add(id(y))
+                        if not ev:
+                            ev.append(("W", c))
+    if not ev:
+        for x in ex.walk(e):
+            if is_f(x) and id(x) not in quiet:
+                ev.append(("R", x))
+                break
+    if not ev and depth < 2:
+        for c in ex.calls(e, into_refs=False):
+            if not c.get("fn"):
+                continue
+            for g in prog.functions.get(c["fn"], []):
+                if not g.blocks or g is f or g.file != f.file:
+                    continue
+                if not any(_is_record_ptr(f, a, rec, prog) for a in c["args"]):
+                    continue
+                s = _first_access_summary(prog, g, field, depth + 1)
+                if s:
+                    ev.append((s, c))
+    return ev
+
+
+def _under_index(root, target):
+    """target is the base of a subscript somewhere below root (an element value, not the array itself)."""
+    for x in ex.walk(root):
+        if x.get("k") == "idx":
+            b = ex.strip(x.get("b"))
+            if b is target:
+                return True
+    return False
+
+
+_fa_memo = {}
+
+
+def _block_first(prog, f, field, depth):
+    first = {}
+    for b in f.blocks.values():
+        for i, e in enumerate(b.elems):
+            if e is None:
+                continue
+            ev = _access_events(f, e, field, prog, depth)
+            if ev:
+                first[b.id] = ev[0]
+                break
+        else:
+            if b.term and "cond" in b.term:
+                if any(x.get("k") == "mem" and (x.get("rec"), x.get("f")) == field for x in ex.walk(b.term["cond"])):
+                    first[b.id] = ("R", b.term["cond"])
+    return first
+
+
+def _first_access_summary(prog, g, field, depth):
+    """'R' if g can read the member before storing to it, 'W' if it stores to it on every path, else None."""
+    k = (id(prog), g.key, field)
+    if k in _fa_memo:
+        return _fa_memo[k]
+    _fa_memo[k] = None
+    first = _block_first(prog, g, field, depth)
+    cut = {b for b, (kind, n) in first.items() if kind == "W"}
+    rd = {b for b, (kind, n) in first.items() if kind == "R"}
+    seen, st = set(), [g.entry]
+    res = None
+    reach_exit = False
+    while st:
+        b = st.pop()
+        if b in seen:
+            continue
+        seen.add(b)
+        if b in rd:
+            res = "R"
+            break
+        if b in cut:
+            continue
+        if b == g.exit:
+            reach_exit = True
+        for s in g.blocks[b].succs:
+            if s is not None:
+                st.append(s)
+    if res is None and not reach_exit and cut:
+        res = "W"
+    _fa_memo[k] = res
+    return res
+
+
+def check_read_first(ck, prog, rule, files=None):
+    """Members of a coder record that a function stored in a `code` slot can read before it has stored to them (on
+    some path from its entry in the initial state) must be stored to by the init function on every path that returns
+    LZMA_OK: nothing else defines their value at the start of a session on a re-used coder."""
+    from .C10 import coder_records
+    from sa import machine, fd as fdm
+    cg = common.callgraph(prog)
+    rs = common.retsets(prog)
+    slot_fns = common.code_slot_functions(prog, cg)
+    n = 0
+    for f, rec, endname in sorted(coder_records(prog), key=lambda x: (x[0].file, x[0].line)):
+        base = f.file.rsplit("/", 1)[-1]
+        if files is not None and base not in files:
+            continue
+        rdef = prog.records.get(rec)
+        if not rdef:
+            continue
+        owned = set(own.owned_fields(prog, rec, base))
+        coders = [g for g in slot_fns if g.blocks and any(v.get("prec") == rec for v in g.vars)]
+        if not coders:
+            continue
+        # initial value of the state member
+        seq0 = set()
+        helpers = [f] + [h for c in sorted(cg.callees(f)) for h in prog.functions.get(c, [])
+                         if h.file == f.file and h.blocks and h is not f]
+        for b, i, e in (x for h in helpers for x in h.iter_elems()):
+            for (l, r, op, node) in ex.writes(e):
+                ls = ex.strip(l)
+                if ls is not None and ls.get("k") == "mem" and ls.get("rec") == rec and ls.get("f") == "sequence" \
+                        and op == "=" and r is not None:
+                    rr = ex.strip(r)
+                    if rr is not None and rr.get("k") == "enum" and rr.get("n"):
+                        seq0.add(rr["n"])
+        ck.saw_function(f)
+        for g in coders:
+            ck.saw_function(g)
+            m = None
+            try:
+                # members of the same enumeration type as the state member (lzma2's next_sequence) are tracked too
+                sty = [fd2.get("ty") for fd2 in rdef["fields"] if fd2["n"] == "sequence"]
+                xk = []
+                if sty and sty[0]:
+                    for fd2 in rdef["fields"]:
+                        if fd2["n"] != "sequence" and fd2.get("ty") == sty[0]:
+                            en = None
+                            for nm in sorted(seq0):
+                                en = prog.enum_with(nm, g.file)
+                            if en:
+                                xk.append(fdm.Key("field", fd2["n"], rec=rec, domain=en.values(), label=fd2["n"]))
+                m = machine.Machine(prog, g, cg, rs, extra_keys=xk, seq_init=sorted(seq0) or None, resume_edges=True)
+            except (AnalysisBroken, KeyError):
+                m = None
+            for fd_ in rdef["fields"]:
+                fld = (rec, fd_["n"])
+                if fld in owned or fd_["n"] in ("next", "sequence") or (fd_.get("ty") or "").startswith("mythread_"):
+                    continue
+                first = _block_first(prog, g, fld, 0)
+                rd = {b for b, (kind, nd) in first.items() if kind == "R"}
+                if not rd:
+                    continue
+                cut = {b for b, (kind, nd) in first.items() if kind == "W"}
+                if m is not None:
+                    gg = m.g
+                    path, hit = guard.cut_reach(gg, m.entry_nodes(), set(),
+                                                lambda node: ("read" if node[0] in rd else None), cut_blocks=cut)
+                    reached = path is not None
+                    desc = m.describe_path(path) if reached else None
+                    rb = path[-1][0] if reached else None
+                else:
+                    seen, st, reached, rb = set(), [g.entry], False, None
+                    while st:
+                        b = st.pop()
+                        if b in seen:
+                            continue
+                        seen.add(b)
+                        if b in rd:
+                            reached, rb = True, b
+                            break
+                        if b in cut:
+                            continue
+                        st.extend(s for s in g.blocks[b].succs if s is not None)
+                    desc = "entry -> B%s" % rb if reached else None
+                if not reached:
+                    continue
+                n += 1
+                exc = READFIRST_EXCEPT.get((f.name, fd_["n"]))
+                cutb = _cut_blocks(prog, f, fld, {rec})
+                w = _reach_ok_return(prog, f, cutb) if exc is None else None
+                rnode = first[rb][1]
+                ck.ob(rule, "%s:%s:%s" % (f.name, g.name, fd_["n"]), w is None, common.where(g, rnode),
+                      ("%s() reads member %s before storing to it; %s() stores to it on every path that returns LZMA_OK"
+                       % (g.name, fd_["n"], f.name) if exc is None else "exception: " + exc) if w is None else
+                      "%s() reads member '%s' (line %s, path %s) before anything in the session has stored to it, and "
+                      "%s() can return LZMA_OK via %s without storing to it: a re-used coder starts the new session "
+                      "with what the previous one left there" % (
+                          g.name, fd_["n"], ex.line(rnode) or "?", desc, f.name, w),
+                      key="%s:%s:%s" % (rule.split("-", 1)[1], g.name, fd_["n"]))
     return n
